@@ -1,2 +1,82 @@
-(* placeholder until Proofs/MinimizeProofs.v exists: statements are filled in by the build round *)
-From GT Require Import Base.Prelude Model.DFA Model.NFA Model.Minimize.
+(* C04 — the three DFA minimisers of gambatools.dfa_algorithms (models in Model/Minimize.v):
+     dfa_minimize  (table filling + dfa_from_table),
+     dfa_quotient  (Moore refinement by successor-block signatures),
+     dfa_hopcroft  (Hopcroft's algorithm exactly as coded),
+   each succeed on every well-formed total DFA D (dfa_wf D; dQ D and dF D are sets, i.e. duplicate-free) and return the
+   quotient automaton of D by Myhill-Nerode equivalence (C04_spec below): a well-formed DFA over the same alphabet that
+   accepts the same words, whose states are pairwise distinguishable and are exactly the Myhill-Nerode classes of the
+   states of D (each state of the result is a non-empty set of states of D, named by its canonical list).
+
+   Result states are named by `canon_nat` (sorted duplicate-free list = print_state_set).
+   The arbitrary choices of the Python code are parameters, all universally quantified:
+     ord  : iteration order of a Python set of states   (any permutation of the set),
+     ordB : iteration order of a Python set of blocks   (any permutation of the set),
+     rep  : set_element(S) = next(iter(S))              (any function returning a member of a non-empty set),
+     pick : W_cal.pop()                                 (any function returning a member and the remaining members).
+   Hence the theorems hold for every behaviour of CPython's set iteration / set.pop.
+
+   Consequences of C04_spec (for the result D' of any of the three routines):
+     C04_state_count_bounds    : D' has at least as many states as any family of pairwise inequivalent states of D
+                                 (e.g. one representative per class), and at most as many states as D;
+     C04_minimal_when_reachable: if every state of D is reachable, no DFA for the language of D (over the same alphabet,
+                                 any state type) has fewer states than D'.
+   Unreachable states of D are NOT removed by these routines (they are classified like all others); minimality
+   therefore needs the reachability hypothesis. *)
+From GT Require Import Base.Prelude Base.Sort Model.DFA Model.NFA Model.Minimize.
+From GT Require Import Proofs.PartitionDefs Proofs.MinimizeFinal.
+From Coq Require Import Permutation.
+
+(* words over the alphabet of D *)
+Definition W (D : dfa nat) (w : word) : Prop := Forall (fun a => In a (dS D)) w.
+(* Myhill-Nerode equivalence of two states of D *)
+Definition mn (D : dfa nat) (p q : nat) : Prop :=
+  forall w, W D w -> (In (drun D p w) (dF D) <-> In (drun D q w) (dF D)).
+
+Definition C04_spec (D : dfa nat) (D' : dfa (list nat)) : Prop :=
+  dfa_wf D' /\ dS D' = dS D /\ NoDup (dQ D') /\
+  (* same language *)
+  (forall w, W D w -> (dfa_lang D' w <-> dfa_lang D w)) /\
+  (* the states of D' are pairwise distinguishable *)
+  (forall S1 S2, In S1 (dQ D') -> In S2 (dQ D') -> S1 <> S2 ->
+     exists w, W D w /\ ~ (In (drun D' S1 w) (dF D') <-> In (drun D' S2 w) (dF D'))) /\
+  (* the states of D' are exactly the Myhill-Nerode classes of dQ D *)
+  (forall S1, In S1 (dQ D') -> S1 <> [] /\ incl S1 (dQ D)) /\
+  (forall q, In q (dQ D) -> exists S1, In S1 (dQ D') /\ In q S1) /\
+  (forall S1 p q, In S1 (dQ D') -> In p S1 -> In q S1 -> mn D p q) /\
+  (forall S1 S2 p q, In S1 (dQ D') -> In S2 (dQ D') -> In p S1 -> In q S2 -> mn D p q -> S1 = S2).
+
+Theorem C04_table_filling : forall (ord : list nat -> list nat), (forall l, Permutation (ord l) l) ->
+  forall D : dfa nat, dfa_wf D -> NoDup (dQ D) -> NoDup (dF D) ->
+  exists D', dfa_minimize canon_nat ord D = Some D' /\ C04_spec D D'.
+Proof. exact (fun ord Hord D => dfa_minimize_spec canon_nat (fun l y => canon_nat_In y l) ord Hord D). Qed.
+
+Theorem C04_quotient : forall (ord : list nat -> list nat) (rep : list nat -> option nat),
+  (forall l, Permutation (ord l) l) -> (forall l, l <> [] -> exists x, rep l = Some x /\ In x l) ->
+  forall D : dfa nat, dfa_wf D -> NoDup (dQ D) -> NoDup (dF D) ->
+  exists D', dfa_quotient canon_nat ord rep D = Some D' /\ C04_spec D D'.
+Proof. exact (fun ord rep Hord Hrep D => dfa_quotient_spec canon_nat (fun l y => canon_nat_In y l) ord rep Hord Hrep D). Qed.
+
+Theorem C04_hopcroft : forall (ordB : list (list nat) -> list (list nat)) (pick : picker (list nat * nat)),
+  (forall l, Permutation (ordB l) l) -> picker_ok pick ->
+  forall D : dfa nat, dfa_wf D -> NoDup (dQ D) -> NoDup (dF D) ->
+  exists D', dfa_hopcroft canon_nat ordB pick D = Some D' /\ C04_spec D D'.
+Proof. exact (fun ordB pick Hord Hpick D => dfa_hopcroft_spec canon_nat (fun l y => canon_nat_In y l) ordB pick Hord Hpick D). Qed.
+
+Theorem C04_state_count_bounds : forall (D : dfa nat) (D' : dfa (list nat)), dfa_wf D -> NoDup (dQ D) -> C04_spec D D' ->
+  (forall l, NoDup l -> incl l (dQ D) -> (forall p q, In p l -> In q l -> p <> q -> ~ mn D p q) ->
+     length l <= length (dQ D')) /\
+  length (dQ D') <= length (dQ D).
+Proof. exact (fun D D' => min_spec_count_bounds D D'). Qed.
+
+Theorem C04_minimal_when_reachable : forall (D : dfa nat) (D' : dfa (list nat)) (B : Type) (HB : Eqb B) (D2 : dfa B),
+  dfa_wf D -> NoDup (dQ D) -> C04_spec D D' ->
+  (forall q, In q (dQ D) -> exists w, W D w /\ drun D (dq0 D) w = q) ->
+  dfa_wf D2 -> dS D2 = dS D -> (forall w, W D w -> (dfa_lang D w <-> dfa_lang D2 w)) ->
+  length (dQ D') <= length (dQ D2).
+Proof. exact (fun D D' B HB D2 => min_spec_minimal D D' D2). Qed.
+
+Print Assumptions C04_table_filling.
+Print Assumptions C04_quotient.
+Print Assumptions C04_hopcroft.
+Print Assumptions C04_state_count_bounds.
+Print Assumptions C04_minimal_when_reachable.
